@@ -5,10 +5,13 @@ From Raven Require Import Base.GoStr Base.GoStrFacts Spec.Grammar Model.Respond 
      Proof.Grammar Proof.RespondTok Proof.RespondAsm.
 Import ListNotations.
 
-Lemma quote_or_nil_wf s : clean s = true ->
-  tokb (quote_or_nil s) = true /\ (s <> [] -> unquote (quote_or_nil s) = Some s).
+Lemma quote_or_nil_wf s :
+  tokb (quote_or_nil s) = true
+  /\ (s <> [] -> clean s = true -> unquote (quote_or_nil s) = Some s)
+  /\ (clean s = false -> quote_or_nil s = lit_text s).
 Proof.
-  intros H. split; [apply tokb_tokp, tokp_quote_or_nil, H|apply unquote_quote].
+  split; [apply tokb_tokp, tokp_quote_or_nil_any|]. split; [apply unquote_quote|].
+  intros H. destruct s as [|c s]; [discriminate|]. unfold quote_or_nil. now rewrite H.
 Qed.
 
 (** a strict client that meets a literal reads the announcement and exactly
@@ -102,35 +105,33 @@ Definition unanswered (req : list fitem) (cls : finding) : Prop :=
      | None => False
      end.
 
-Lemma refuted_item_suppressed_body :
-  unanswered [I_Simple (S_ "BODY"); I_Sec true (S_Part (S_ "1") false) None] item_suppressed.
-Proof. vm_compute. auto. Qed.
-
-Lemma refuted_item_suppressed_rfc822 :
-  unanswered [I_Simple (S_ "RFC822"); I_Simple (S_ "RFC822.SIZE")] item_suppressed.
-Proof. vm_compute. auto. Qed.
-
-Lemma refuted_item_suppressed_header :
-  unanswered [I_Sec false S_Header None; I_Sec false (S_Fields [S_ "TO"]) None] item_suppressed.
-Proof. vm_compute. auto. Qed.
-
-Lemma refuted_item_suppressed_twice :
-  unanswered [I_Sec true S_Header None; I_Sec true S_Header (Some (3, 5))] item_suppressed.
-Proof. vm_compute. auto. Qed.
-
+(** still open: RFC822 is answered as BODY[] (raven's test suite asserts it) *)
 Lemma refuted_rfc822_renamed : unanswered [I_Simple (S_ "RFC822")] rfc822_renamed.
 Proof. vm_compute. auto. Qed.
 
-Lemma refuted_partial_range : unanswered [I_Sec false S_Text (Some (0, 5))] partial_range.
-Proof. vm_compute. auto. Qed.
+(** regression (item_suppressed / partial_range, repaired by the item parser of
+    fix wave 3): the requests that used to lose an item, or to answer a range
+    without its origin, are answered item by item *)
+Definition answered_now (req : list fitem) : Prop :=
+  match fetch_plan (fetch_items (render_req req)) w_env with
+  | Some plan => answered req plan = true /\ forallb out_okb plan = true
+  | None => False
+  end.
 
-(** a request without such a shape, answered item by item (non-vacuity of [answered]) *)
-Lemma answered_example :
-  let req := [I_Simple (S_ "UID"); I_Simple (S_ "FLAGS"); I_Simple (S_ "ENVELOPE");
-              I_Sec true (S_Fields [S_ "Subject"; S_ "to"]) None] in
-  classify_req req = None
-  /\ match fetch_plan (fetch_items (render_req req)) w_env with
-     | Some plan => answered req plan = true /\ forallb out_okb plan = true
-     | None => False
-     end.
+Lemma regression_items_answered :
+  answered_now [I_Simple (S_ "BODY"); I_Sec true (S_Part (S_ "1") false) None]
+  /\ answered_now [I_Simple (S_ "RFC822.SIZE"); I_Simple (S_ "RFC822.HEADER"); I_Simple (S_ "BODYSTRUCTURE"); I_Simple (S_ "BODY")]
+  /\ answered_now [I_Sec false S_Header None; I_Sec false (S_Fields [S_ "TO"]) None; I_Sec true (S_Fields [S_ "SUBJECT"; S_ "X-UID"]) None]
+  /\ answered_now [I_Sec true S_Header None; I_Sec true S_Header (Some (3, 5))]
+  /\ answered_now [I_Sec false S_Text (Some (0, 5)); I_Sec false (S_Part (S_ "1") false) (Some (3, 4)); I_Sec false S_Text None]
+  /\ answered_now [I_Sec false (S_Fields [S_ "SUBJECT"]) (Some (2, 6)); I_Sec false (S_Part (S_ "2") false) (Some (0, 9))].
+Proof. vm_compute. repeat split; reflexivity. Qed.
+
+(** the old answers, as byte strings: BODY missing next to BODY[1]; BODY[TEXT]<0.5>
+    answered without origin *)
+Lemma old_item_answers :
+  option_map (fun r => map fst (snd r)) (fetch_pairs (send (S_ "* 1 FETCH (BODY[1] {5}" ++ crlf ++ S_ "hello)")))
+    = Some [S_ "BODY[1]"]
+  /\ option_map (fun r => map fst (snd r)) (fetch_pairs (send (S_ "* 1 FETCH (BODY[TEXT] {5}" ++ crlf ++ S_ "hello)")))
+    = Some [S_ "BODY[TEXT]"].
 Proof. vm_compute. auto. Qed.
